@@ -5,9 +5,30 @@ from tools.vlib import _strip_comments
 PID = "C34"
 READY = False
 MANIFEST = {
-    "level_text": "TODO",
-    "level_note": "TODO",
-    "technique": "Lean 4 proof over a model of the classification and publication logic + model/implementation differential correspondence with Lean monitor",
+    "level_text": "Lean 4 theorems. (classify4/classify6) For every numeric IPv4 address and every numeric IPv6 address (8 groups) lying in "
+                  "one of the blocks the property names (0/8, 10/8, 100.64/10, 127/8, 169.254/16, 172.16/12, 192.0.2/24, 192.168/16, "
+                  "198.18/15, 198.51.100/24, 203.0.113/24, 224/3; ::, ::1, fc00::/7, fe80::/10, ff00::/8, 2001:db8::/32, and ::ffff:a.b.c.d "
+                  "of any such IPv4 address), the canonical text of the address (inet_ntop / RFC 5952, defined as a Lean function and "
+                  "cross-checked against glibc) is classified private/reserved by the model of is_private_or_reserved_host. (publish_*) For "
+                  "the model of build_transport_advertise_candidates, Node::refresh_advertised_endpoints, preferred_control_endpoints, "
+                  "self_endpoint and the manifest hint loop, for every STUN result (any text, or failure), control host, manual/stale "
+                  "endpoint list, advertise host, transport port and fallback echo address: with allow_private=false no automatically "
+                  "added entry of advertised_endpoints and no non-manual manifest hint passes the classifier, hence none is the canonical "
+                  "text of a non-routable address; with mode off there are none at all (even with allow_private); in warn mode with "
+                  "conflicting candidates there are none. The IPv4 range test is (T) translated statement by statement from the C++ on "
+                  "every run, the IPv6 literal/prefix lists, reserved names and the mapped prefix are regenerated, and the whole model is "
+                  "compared against the real classification functions and a real Node (STUN override hook) with a Lean monitor that judges "
+                  "the implementation's outputs by the numeric specification.",
+    "level_note": "Trusted: Lean kernel; the hand transcription of parse_ipv4/normalize_ipv6/is_private_or_reserved_ipv6/host and of the "
+                  "Node-level decision logic (validated only by the differential run); glibc inet_ntop as the definition of canonical text "
+                  "(fmt4/fmt6 are compared with it on every numeric case, they are not proved equal to it); std::isdigit/tolower in the C "
+                  "locale; unordered_set de-duplication modelled on (host, port) pairs. Partial in these respects: the Node model covers "
+                  "relay-less nodes without bootstrap nodes after start_transport; manual (control-scheme) hints such as the bound control "
+                  "host are outside the property and not constrained; the announce-endpoint fallback of broadcast_manifest (used only when "
+                  "no endpoint at all is configured) is not observed by the harness; host names (non-numeric text) are only shown to pass "
+                  "the classifier, the property's numeric claim needs a numeric address; IPv4-compatible (::a.b.c.d), NAT64 and 6to4 forms "
+                  "are not in the property's list and are not required to be filtered.",
+    "technique": "Lean 4 proof over a translated/transcribed model of the classification and publication logic + model/implementation differential correspondence with Lean monitor",
 }
 
 SRC = "src/network/AdvertiseDiscovery.cpp"
